@@ -358,6 +358,21 @@ pub fn run_c18_b(ctx: &Ctx) -> Outcome {
         let per = ctx.vol(150, 5000) as usize;
         let explicit: Arc<Mutex<HashMap<u64, i64>>> = Arc::new(Mutex::new(HashMap::new()));
         let mut hs = Vec::new();
+        // the node forgets its prepared statements now and then: EXECUTEs are answered UNPREPARED and
+        // re-sent after re-preparation; the re-sent frame must carry the same timestamp
+        let stop_evict = Arc::new(std::sync::atomic::AtomicBool::new(false));
+        let evictor = {
+            let (c, stop) = (cluster.clone(), stop_evict.clone());
+            tokio::spawn(async move {
+                let mut n = 0u64;
+                while !stop.load(std::sync::atomic::Ordering::SeqCst) {
+                    tokio::time::sleep(Duration::from_millis(3)).await;
+                    c.node(0).evict_all_user();
+                    n += 1;
+                }
+                n
+            })
+        };
         for t in 0..tasks {
             let (s, ins, explicit) = (session.clone(), ins.clone(), explicit.clone());
             let mut rng = Rng::new(ctx.seed, 1800 + t as u64);
@@ -399,6 +414,14 @@ pub fn run_c18_b(ctx: &Ctx) -> Outcome {
         for h in hs {
             let _ = h.await;
         }
+        stop_evict.store(true, std::sync::atomic::Ordering::SeqCst);
+        let evictions = evictor.await.unwrap_or(0);
+        o.note("evictions_during_workload", json!(evictions));
+        let unprepared_answers = cluster.log().snapshot().iter().filter(|l| matches!(&l.ev, Ev::Send { opcode: 0, .. })).count();
+        o.note("unprepared_answers", json!(unprepared_answers));
+        if unprepared_answers > 0 {
+            o.class("execute-resent-after-unprepared");
+        }
         let seen = cap.seen.lock().unwrap().clone();
         let explicit = explicit.lock().unwrap().clone();
         let mut generated: Vec<(i64, u64)> = Vec::new();
@@ -433,7 +456,7 @@ pub fn run_c18_b(ctx: &Ctx) -> Outcome {
         }
         cluster.shutdown();
     });
-    for c in ["frame:QUERY", "frame:EXECUTE", "frame:BATCH", "explicit-timestamp-sent-unchanged"] {
+    for c in ["frame:QUERY", "frame:EXECUTE", "frame:BATCH", "explicit-timestamp-sent-unchanged", "execute-resent-after-unprepared"] {
         o.require_class(c);
     }
     o
